@@ -126,4 +126,12 @@ class ThinPlateSplines(Alignment, Transform, Invertible):
 
         :type: ``type(self)``
         """
-        return ThinPlateSplines(self.target, self.source, kernel=self.kernel)
+        # The kernel of the inverse has to be centred on the new source (our
+        # target) - reusing self.kernel would leave it centred on our source.
+        kernel = type(self.kernel)(self.target.points)
+        return ThinPlateSplines(
+            self.target,
+            self.source,
+            kernel=kernel,
+            min_singular_val=self.min_singular_val,
+        )
